@@ -260,6 +260,7 @@ func init() {
 				g := gen.New(r, o)
 				return hostileRun("C05", g.Session(r.Range(2, 6)), idx%2 == 0, "typed", "")
 			}},
+			{Name: "params", Count: countFn(1200, 60000), Run: func(ctx *core.Ctx, idx int) core.Result { return dupParamCase("C05", ctx, idx) }},
 		},
 		Sanitize: []string{"matrix", "random", "typed"},
 		Floors:   []core.Floor{{Key: "statements_executed", Quick: 60000, Thor: 5000000}, {Key: "runtime_errors", Quick: 30000, Thor: 2000000}, {Key: "values", Quick: 10000, Thor: 1000000}, {Key: "tag:err:", Quick: 6, Thor: 7}, {Key: "tag:shape:", Quick: 150, Thor: 200}, {Key: "binary_runs", Quick: 200, Thor: 4000}},
